@@ -13,8 +13,10 @@
 (* A statement is a sequence of <= MaxCases cases [p pattern, g guarded].    *)
 (* The machine steps through the cases: TryCase / Guard* / Body / FallOff;   *)
 (* guard outcomes (T, F, R raise) are chosen by the environment.             *)
-(* Observation = log of guard/body events with the bindings visible to them, *)
-(* `==` calls received by the logging constant K.E, and the exception type.  *)
+(* Observation = log of guard/body events with the bindings visible to them  *)
+(* and the exception type.  The log also records the `==` calls received by  *)
+(* the constant K.E in CPython's order; PEP 634 leaves the evaluation of     *)
+(* value patterns undefined, so the harness holds only CPython to them.      *)
 (* NOT observed (PEP 634 lets an implementation cache them): number/order of *)
 (* len/getitem/get/keys calls on the subject; names bound after a failed     *)
 (* guard or pattern.                                                         *)
@@ -126,7 +128,7 @@ LitMatch(x, v) == CASE x = "None" -> v.k = "none"
                     [] x = "True" -> v.k = "bool" /\ v.n = 1
                     [] x = "False" -> v.k = "bool" /\ v.n = 0
                     [] OTHER -> PyEq(v, LitVal(x))
-\* constants of the runtime class K; K.E logs the == it receives and equals the number 1; K.missing does not exist
+\* constants of the runtime class K; K.E logs the == it receives and equals the number 1
 ConstVal(x) == CASE x = "K.i1" -> I(1) [] x = "K.sa" -> S("a") [] x = "K.E" -> I(1) [] x = "K.none" -> NoneV [] x = "K.k" -> S("k")
 KeyVal(x) == CASE x = "'k'" -> S("k") [] x = "'j'" -> S("j") [] x = "1" -> I(1) [] OTHER -> ConstVal(x)
 
@@ -153,7 +155,7 @@ Dg(i) == ToString(i)
 Mix(r, i) == (r * 75 + i * 7919 + 74) % 65537
 Pick(r, seq) == seq[(r % Len(seq)) + 1]
 LitW == <<"1", "1", "2", "0", "-1", "1.0", "'a'", "'a'", "'ab'", "b'a'", "None", "True", "False">>
-ValW == <<"K.i1", "K.i1", "K.i1", "K.sa", "K.sa", "K.sa", "K.E", "K.E", "K.E", "K.E", "K.none", "K.none", "K.k", "K.k", "K.i1", "K.missing">>
+ValW == <<"K.i1", "K.i1", "K.i1", "K.sa", "K.sa", "K.E", "K.E", "K.E", "K.none", "K.k">>
 KeyW == <<"'k'", "1", "'j'", "K.sa", "K.i1", "K.k">>
 ClsW == <<"int", "str", "list", "dict", "float", "bool", "tuple", "P", "P", "P", "P2", "Q", "BadMA", "Boom", "E", "E", "E", "CSeq", "NotT">>
 ShapeSelf == << <<>>, <<"">>, <<"">>, <<"", "">> >>
@@ -172,10 +174,8 @@ Atom(r, nocap, refut) ==
 RECURSIVE Gen(_, _, _, _), Kids(_, _, _, _, _), Relit(_), RelitS(_, _), Alts(_, _, _, _, _), GenKeys(_, _, _, _, _), PutStar(_, _, _, _)
 Kids(d, r, n, nocap, i) == IF i > n THEN <<>> ELSE <<Gen(d, Mix(r, 20 + i), nocap, FALSE)>> \o Kids(d, r, n, nocap, i + 1)
 Alts(d, r, n, refut, i) == IF i > n THEN <<>> ELSE <<Gen(d, Mix(r, 40 + i), TRUE, refut \/ i < n)>> \o Alts(d, r, n, refut, i + 1)
-\* distinct key texts: k0, k0+st, k0+2st (mod 6, st in {1, 2}); now and then the constant that does not exist
-GenKeys(r, n, k0, st, i) == IF i > n THEN <<>>
-                            ELSE <<IF Mix(r, 30 + i) % 24 = 0 THEN "K.missing" ELSE KeyW[((k0 + (i - 1) * st) % Len(KeyW)) + 1]>>
-                                 \o GenKeys(r, n, k0, st, i + 1)
+\* distinct key texts: k0, k0+st, k0+2st (mod 6, st in {1, 2}); "1" / K.i1 and 'k' / K.k are equal at run time
+GenKeys(r, n, k0, st, i) == IF i > n THEN <<>> ELSE <<KeyW[((k0 + (i - 1) * st) % Len(KeyW)) + 1]>> \o GenKeys(r, n, k0, st, i + 1)
 PutStar(ks, sp, st, i) == IF i > Len(ks) THEN <<>> ELSE <<IF i = sp THEN st ELSE ks[i]>> \o PutStar(ks, sp, st, i + 1)
 \* the same pattern with other literals: second alternative of an or-pattern that binds names
 RelitS(s, i) == IF i > Len(s) THEN <<>> ELSE <<Relit(s[i])>> \o RelitS(s, i + 1)
@@ -237,7 +237,7 @@ WFP(p) == /\ \A i \in 1..Len(p.a) : WFP(p.a[i])
           /\ p.t = "or" => /\ \A i \in 1..(Len(p.a) - 1) : ~Irref(p.a[i])
                            /\ \A i \in 2..Len(p.a) : SetOf(Names(p.a[i], "")) = SetOf(Names(p.a[1], ""))
           /\ p.t = "seq" => Cardinality({i \in 1..Len(p.a) : IsStar(p.a[i])}) <= 1
-          /\ p.t = "map" => \A i, j \in 1..Len(p.ks) : (i # j /\ p.ks[i] = p.ks[j]) => p.ks[i] = "K.missing"
+          /\ p.t = "map" => \A i, j \in 1..Len(p.ks) : i # j => p.ks[i] # p.ks[j]
 WF(s) == \A j \in 1..Len(s.cases) :
             /\ WFP(s.cases[j].p) /\ NoDup(Names(s.cases[j].p, ""))
             /\ (j < Len(s.cases) /\ ~s.cases[j].g) => ~Irref(s.cases[j].p)
@@ -297,8 +297,7 @@ M(p, v, path, st) ==
   CASE p.t = "wild" -> st
     [] p.t = "cap"  -> Bind(st, "v" \o path, v)
     [] p.t = "lit"  -> IF LitMatch(p.v, v) THEN st ELSE Fail(st)
-    [] p.t = "val"  -> IF p.v = "K.missing" THEN Raise(st, "AttributeError")
-                       ELSE IF p.v = "K.E" THEN LET s1 == [st EXCEPT !.log = Append(@, Ev("eq", 0, <<[n |-> "", v |-> Rp(v)]>>))]
+    [] p.t = "val"  -> IF p.v = "K.E" THEN LET s1 == [st EXCEPT !.log = Append(@, Ev("eq", 0, <<[n |-> "", v |-> Rp(v)]>>))]
                                                 IN IF PyEq(v, I(1)) THEN s1 ELSE Fail(s1)
                        ELSE IF PyEq(v, ConstVal(p.v)) THEN st ELSE Fail(st)
     [] p.t = "as"   -> LET r == M(p.a[1], v, path \o "0", st) IN IF r.ok THEN Bind(r, "w" \o path, v) ELSE r
@@ -312,7 +311,6 @@ M(p, v, path, st) ==
                        IF v.k # "map" THEN Fail(st)
                        ELSE IF n = 0 THEN (IF p.v = "rest" THEN Bind(st, "r" \o path, Di(v.els)) ELSE st)
                        ELSE IF Len(v.els) \div 2 < n THEN Fail(st)
-                       ELSE IF \E i \in 1..n : p.ks[i] = "K.missing" THEN Raise(st, "AttributeError")   \* key expressions first
                        ELSE LET x == KeysRes(p.ks, v.els, 1) IN
                             IF x = "fail" THEN Fail(st) ELSE IF x # "ok" THEN Raise(st, x)
                             ELSE LET r == MSub(p, v, path, st, 1) IN
@@ -330,7 +328,7 @@ RECURSIVE Sat(_, _)
 Sat(p, v) ==
   CASE p.t \in {"wild", "cap", "star", "starw"} -> TRUE
     [] p.t = "lit" -> LitMatch(p.v, v)
-    [] p.t = "val" -> p.v # "K.missing" /\ PyEq(v, ConstVal(p.v))
+    [] p.t = "val" -> PyEq(v, ConstVal(p.v))
     [] p.t = "as"  -> Sat(p.a[1], v)
     [] p.t = "or"  -> \E i \in 1..Len(p.a) : Sat(p.a[i], v)
     [] p.t = "seq" -> /\ v.k = "seq"
@@ -340,9 +338,8 @@ Sat(p, v) ==
                                                /\ \A i \in 1..n : /\ i < sp => Sat(p.a[i], v.els[i])
                                                                   /\ i > sp => Sat(p.a[i], v.els[i + m - 1])
     [] p.t = "map" -> /\ v.k = "map" /\ Len(v.els) \div 2 >= Len(p.ks)     \* CPython's length test: as many entries as keys
-                      /\ \A i \in 1..Len(p.ks) : /\ p.ks[i] # "K.missing"
-                                                 /\ \E j \in 1..(Len(v.els) \div 2) : /\ PyEq(v.els[2 * j - 1], KeyVal(p.ks[i]))
-                                                                                      /\ Sat(p.a[i], v.els[2 * j])
+                      /\ \A i \in 1..Len(p.ks) : \E j \in 1..(Len(v.els) \div 2) : /\ PyEq(v.els[2 * j - 1], KeyVal(p.ks[i]))
+                                                                                   /\ Sat(p.a[i], v.els[2 * j])
     [] p.t = "cls" -> /\ p.v # "NotT" /\ IsInst(v, p.v)
                       /\ \A i \in 1..Len(p.a) : LET nm == NameAt(p, i) IN
                             \/ nm = "<self>" /\ Sat(p.a[i], v)
@@ -406,6 +403,6 @@ ExcFinal == exc # "" => phase = "done" /\ sel = 0
 
 Publish == /\ (Dump /\ phase = "stmt") => PrintT("@@" \o ToJson([stmt |-> stmt]))
            /\ (Dump /\ phase = "done") => PrintT("@@" \o ToJson([id |-> sid, si |-> si, gs |-> [i \in 1..Len(gs) |-> gs[i].o],
-                                                                  log |-> log, exc |-> exc, sel |-> sel]))
+                                                                  log |-> log, exc |-> exc, sel |-> sel, ci |-> ci]))
 ASSUME Dump => PrintT("@@" \o ToJson([subjects |-> [i \in 1..NSubj |-> Rp(SubjSeq[i])]]))
 =============================================================================
